@@ -133,6 +133,9 @@ def gen_cases(chk, tier):
             cases.append({'a': c['a'], 'b': c['b'], 'src': 'corpus'})
     for a, b in gennb.crafted_mime_pairs():
         cases.append({'a': a, 'b': b, 'src': 'crafted-mime'})
+    for a, b in gennb.crafted_retype_pairs():
+        cases.append({'a': a, 'b': b, 'src': 'crafted-retype'})
+        cases.append({'a': b, 'b': a, 'src': 'crafted-retype'})
     n_rich, n_small = (140, 160) if tier == 'quick' else (2500, 3500)
     for i in range(n_rich):
         a, b = gennb.gen_pair(r)
